@@ -25,7 +25,7 @@ ASSUMPTIONS = [
     "the region is a function of (n+, n-, N) only (checked on re-arranged/re-spelled realisations of sampled triples)",
     "thresholds decided in exact rationals: 1/4, 7/20",
 ]
-REQUIRED = {"all": ["region:1", "region:2", "region:3", "region:4", "region:5", "on_boundary:FCR=1/4",
+REQUIRED = {"all": ["salted_objects", "region:1", "region:2", "region:3", "region:4", "region:5", "on_boundary:FCR=1/4",
                     "on_boundary:FCR=7/20", "on_boundary:|NCPR|=7/20", "after_other_queries", "whitespace_presentations"]}
 NMAX = {"quick": 60, "thorough": 140}
 Q = Fraction(1, 4)
